@@ -9,7 +9,7 @@ brand-new spec + evaluator built from the same text; fitness, verdict and failin
 """
 from __future__ import annotations
 
-from mc.common import Ctx, pmap
+from mc.common import Ctx, pmap, tag
 from mc.explore import bfs_levels, dfs
 from mc.fd import DerivationTree, NonTerminal, Terminal, build, leaf_value
 from mc.seams import max_repetitions, random_seam
@@ -250,6 +250,8 @@ def step(task):
             break
     ren2: dict = {}
     canon = (tuple(snapf(t, ren2) for t in forest), tuple(sorted((k, round(v[0], 9)) for k, v in evaluator._fitness_cache.items())))
+    if viol:
+        tag(viol, "mc.checks.c11", "step", task)
     return (canon, viol, True)
 
 
